@@ -115,7 +115,7 @@ def check_C06(run):
     run.model("MC_Wire", "MC_Wire_quick")
     cases, g = V.generate(run.scratch, "MC_Mutate", "MC_Mutate_thorough" if run.thorough() else "MC_Mutate_quick")
     run.models.append(g)
-    out, meta = run.drive("C06", cases=cases, timeout=7000)
+    out, meta = run.drive("C06", cases=cases)
     total, rejected, states, _ = V.judge(run.scratch, "Trace_Robust", out)
     cov = std_cov(run, meta, total, states,
                   "one event per (entry point, input): TLC-enumerated single-field mutations of valid encodings (every length/count/selector/long token x 17 replacements), "
@@ -278,7 +278,7 @@ def check_C11(run):
     v = V.run_tlc(run.scratch, "Heap", "Heap_defect", workers=4, timeout=600)
     if "Invariant GCSafe is violated" not in v["out"]:
         raise V.Infra("vacuity check failed: the Heap model does not reject the untyped-word mechanism")
-    out, meta = run.drive("C11", timeout=7000)
+    out, meta = run.drive("C11")
     total, rejected, states, _ = V.judge(run.scratch, "Trace_Codec", out)
     cov = std_cov(run, meta, total, states,
                   "7 target shapes (maps and slices behind pointers, maps of maps / slices / pointers, pointers to registered types, nested records) x 3 codecs x block layouts, decoded in child processes under GODEBUG=clobberfree=1 "
@@ -291,7 +291,7 @@ def check_C11(run):
 def check_C12(run):
     run.model("Concurrency", "Concurrency" if run.thorough() else "Concurrency_quick", timeout=3000)
     race = run.harness(race=True)
-    out, meta = run.drive("C12", extra_env={"VERIF_RACE_BIN": race}, timeout=7000)
+    out, meta = run.drive("C12", extra_env={"VERIF_RACE_BIN": race})
     total, rejected, states, _ = V.judge(run.scratch, "Trace_Conc", out)
     cov = std_cov(run, meta, total, states,
                   "gates: for each ordered pair of sections of the same lock (registry r/w, schema registry r/w, zone cache) one goroutine parked inside, a second sent towards the other section, arrival recorded; "
